@@ -114,13 +114,20 @@ def reference(expr, enc):
         return None
 
 
-def check_case(case):
+def check_known(entry):
+    """Known findings are replayed without the by-construction exclusion of their input class."""
+    return check_case(entry["case"], allow_known=True)
+
+
+def check_case(case, allow_known=False):
     st = _setup()
     expr, datas, style = case["expr"], case["datas"], case.get("style", 0)
     try:
-        ref.static_check(expr)
+        ref.static_check(expr, allow_known)
     except ref.RefDecline:
         raise core.Discard()
+    except ref.RefExcluded:
+        raise core.Excluded()
     src, info = gexpr.print_expr_info(expr, style)
     refs = [reference(expr, enc) for enc in datas]
     if all(r is None for r in refs):
